@@ -56,6 +56,11 @@ type ClientSession struct {
 
 	disposeOnce sync.Once
 	authInfo    AuthInfo
+
+	// connMu 保护conn的赋值和dispose之间的竞争：
+	// 建连是在独立的协程中进行的，建连超时（或外部调用Dispose）可能和tcp连接建立成功同时发生
+	connMu       sync.Mutex
+	disposedFlag bool
 }
 
 type AuthInfo struct {
@@ -317,10 +322,19 @@ func (s *ClientSession) tcpConnect() error {
 		}
 	}
 
-	s.conn = connection.New(conn, func(option *connection.Option) {
+	c := connection.New(conn, func(option *connection.Option) {
 		option.ReadBufSize = s.option.ReadBufSize
 		option.WriteChanFullBehavior = connection.WriteChanFullBehaviorBlock
 	})
+	s.connMu.Lock()
+	if s.disposedFlag {
+		// session已经被dispose了（比如建连超时），这条刚建立的连接不会再有人关闭，在这里关掉
+		s.connMu.Unlock()
+		_ = c.Close()
+		return base.ErrSessionNotStarted
+	}
+	s.conn = c
+	s.connMu.Unlock()
 	return nil
 }
 
@@ -696,11 +710,15 @@ func (s *ClientSession) dispose(err error) error {
 	var retErr error
 	s.disposeOnce.Do(func() {
 		Log.Infof("[%s] lifecycle dispose rtmp ClientSession. err=%+v", s.UniqueKey(), err)
-		if s.conn == nil {
+		s.connMu.Lock()
+		s.disposedFlag = true
+		conn := s.conn
+		s.connMu.Unlock()
+		if conn == nil {
 			retErr = base.ErrSessionNotStarted
 			return
 		}
-		retErr = s.conn.Close()
+		retErr = conn.Close()
 	})
 	return retErr
 }
